@@ -33,6 +33,11 @@ CLAIMED["C04"] = dict(
    text="Exploration: 25k (quick) / 300k (thorough) generated programs plus 400 / 4000 per fault kind: nested try / typed catches / untyped catch (value, rethrow, new throw) / finally skeletons (depth <= 5) around function calls, each / keep / fold callbacks, generators, `@+` overloads and `@display` from interpolation, with one of 18 planted fault kinds (three kinds of thrown values and 15 runtime errors incl. errors inside half-built strings, lists, tuples, maps and call arguments, arity errors). Marker trace, handler selection, finally placement/value, state after the catch, uncaught message and outcome class are compared with the reference interpreter; VM stacks must be empty after successful runs.",
    note="Trusts M's unwinding rules (guide: 'Errors'). Texts of caught runtime errors are never printed. Known shapes F28, F30 and C04-gen-typed are excluded by construction and replayed as known findings.",
    design="§4 C04")
+CLAIMED["C05"] = dict(
+   technique="structural bytecode verification as an executable validity predicate over generated and mutated programs (property-based testing with a bounded-exhaustive limit walk), determinism checked by repeated and cross-process compilation",
+   text="Exploration: every text the parser accepts among the corpus, a seeded 15% (quick) / complete (thorough) single-token mutation neighbourhood, 8k / 120k generated programs of four profiles and a limit walk of +-2 / +-6 around every encoding limit (u8 registers through locals, nesting, call and function arguments, captures, defaults, multi-assignment; varint constants and size hints at 128 / 16384; import lists; loop / while / if / function bodies and backward jumps around 64 KiB) is compiled and its bytecode verified structurally on EVERY path (decode, function extents, jump targets, register and constant operands, builder / try balance by abstract interpretation), recompiled in-process (and the corpus in a forked process) for determinism, run for internal faults, and limit cases are checked against a closed-form result.",
+   note="Trusts the verifier's reading of the instruction set through the public InstructionReader, and the token/AST predicate that keys the known shape 'control exit inside an expression'. Internal faults at run time are recognised by error text.",
+   design="§4 C05")
 NOT_YET = {}
 props=[json.loads(l) for l in open('/verif/properties.jsonl')]
 checks=[]; na=[]
